@@ -386,6 +386,40 @@ def valuations(free, lengths, width):
         yield dict(zip(names, vals))
 
 
+def _digit(c, radix=10):
+    ch = chr(c)
+    if "0" <= ch <= "9":
+        d = ord(ch) - 48
+    elif "a" <= ch.lower() <= "z" and c < 128:
+        d = ord(ch.lower()) - 87
+    else:
+        return False
+    return d < radix
+
+
+# the byte / char classification methods of core, for values 0..255 (a `char` made from a byte is the Latin-1 character of that value)
+BYTE_CLASSES = {
+    "is_ascii": lambda c: c < 128,
+    "is_ascii_digit": lambda c: 48 <= c <= 57,
+    "is_ascii_hexdigit": lambda c: 48 <= c <= 57 or 65 <= c <= 70 or 97 <= c <= 102,
+    "is_ascii_octdigit": lambda c: 48 <= c <= 55,
+    "is_ascii_alphabetic": lambda c: 65 <= c <= 90 or 97 <= c <= 122,
+    "is_ascii_alphanumeric": lambda c: 48 <= c <= 57 or 65 <= c <= 90 or 97 <= c <= 122,
+    "is_ascii_uppercase": lambda c: 65 <= c <= 90,
+    "is_ascii_lowercase": lambda c: 97 <= c <= 122,
+    "is_ascii_whitespace": lambda c: c in (32, 9, 10, 12, 13),
+    "is_ascii_control": lambda c: c < 32 or c == 127,
+    "is_ascii_graphic": lambda c: 33 <= c <= 126,
+    "is_ascii_punctuation": lambda c: 33 <= c <= 47 or 58 <= c <= 64 or 91 <= c <= 96 or 123 <= c <= 126,
+    "is_digit": _digit,
+    "is_numeric": lambda c: chr(c).isnumeric(),
+    "is_alphabetic": lambda c: chr(c).isalpha(),
+    "is_alphanumeric": lambda c: chr(c).isalnum() or chr(c).isnumeric(),
+    "is_whitespace": lambda c: c in (9, 10, 11, 12, 13, 32, 0x85, 0xa0),
+    "is_control": lambda c: c < 32 or 127 <= c <= 159,
+}
+
+
 def eval_pure(fn, args, fuel=400):
     """Value of a small pure function over integers / booleans (a byte-class predicate such as is_whitespace, the quoting test of the
     writer) for given argument values - a term evaluation over a finite domain, used to compare two such predicates pointwise.  Handles
@@ -452,9 +486,21 @@ def eval_pure(fn, args, fuel=400):
             bb = nxt if nxt is not None else t["otherwise"]
         elif t["k"] == "call":
             rp = (t.get("func", {}).get("res") or {}).get("rpath") or t.get("func", {}).get("fn") or ""
-            if rp.endswith("RangeInclusive::<Idx>::contains") or rp.endswith("::contains"):
-                raise Unsupported("range contains")
-            raise Unsupported("call of %s" % rp)
+            last = rp.split("::")[-1]
+            argv = [operand(a) for a in t["args"]]
+            v = None
+            if ("<impl u8>::" in rp or "<impl char>::" in rp) and last in BYTE_CLASSES and argv and isinstance(argv[0], int):
+                v = int(BYTE_CLASSES[last](argv[0], *argv[1:]))
+            elif rp.endswith("From<u8>>::from") or rp.endswith("char::from_u32_unchecked") or last in ("from", "into") and len(argv) == 1 and isinstance(argv[0], int):
+                v = argv[0]
+            if v is None:
+                if rp.endswith("RangeInclusive::<Idx>::contains") or rp.endswith("::contains"):
+                    raise Unsupported("range contains")
+                raise Unsupported("call of %s" % rp)
+            if t.get("dest") is None or t["dest"].get("p") or t.get("target") is None:
+                raise Unsupported("call result stored through a projection")
+            env[t["dest"]["l"]] = v
+            bb = t["target"]
         else:
             raise Unsupported("terminator %s" % t["k"])
     raise Unsupported("out of fuel")
